@@ -73,7 +73,9 @@ class Prop(BaseProp):
         collide = not gen.render_distinct(tree)
         lic = impl.le.Licensing()
         import random as _random
-        e = impl.build_tree(tree, lic.AND, lic.OR, rng=_random.Random(len(repr(tree))) if len(repr(tree)) % 3 == 0 else None)
+        # one tree in three: some symbols are wrappers around user objects that bring a render() of their own, under which all
+        # licenses display alike (str() of a wrapper is still its key: that is what decides)
+        e = impl.build_tree(tree, lic.AND, lic.OR, rng=_random.Random(len(repr(tree))) if len(repr(tree)) % 3 == 0 else None, own_render=True)
         before = impl.tree_c(e)
         try:
             d = lic.dedup(e)
